@@ -8,6 +8,7 @@ the distance between a float of the library and that value in units of each clas
 
 import json
 import os
+import re
 from fractions import Fraction
 
 import mpmath
@@ -128,6 +129,21 @@ class Defs:
         prefixes = [{"p": p, "k": k} for p, k in self.raw["prefixes"].items()]
         # the library's own prefix keys (for the implementation-shaped side: _split_prefix looks the candidate up in unit_prefixes)
         libpfx = [r["p"] for r in ex["prefixes"]]
+        # the named unit systems of the tree: base units in the order of UnitSystem.units_map and every atom their units are
+        # spelled with (identifiers of the unit strings; TLC reads them through the name table)
+        ident = re.compile(r"[^\W\d]\w*|[%\u00b0]\w*", re.UNICODE)
+        systems = []
+        for name, srec in ex.get("unit_systems", {}).items():
+            if "error" in srec:
+                continue
+            base = [("" if v is None else v) for v in srec["base_units"].values()]
+            atoms = []
+            for v in list(srec["base_units"].values()) + list(srec["units_map"].values()):
+                for a in ident.findall(v or ""):
+                    if a != "sqrt" and a not in atoms:
+                        atoms.append(a)
+            systems.append({"name": name, "base": base, "atoms": atoms})
+        em = [{"from": r["from"], "to": r["to"]} for r in ex.get("em_conversions", [])]
         return {
             "nodes": self.nodes,
             "gens": [{"kind": g["kind"], "cls": g["cls"]} for g in self.gens],
@@ -136,6 +152,8 @@ class Defs:
             "keys": keys,
             "prefixes": prefixes,
             "libprefixes": libpfx,
+            "systems": systems,
+            "em": em,
             "nbase": len(BASE_DIM_ORDER),
             "nclasses": len(self.classes),
             "g2": self.gid["2"],
